@@ -33,8 +33,8 @@ Refuting events (keys of the returned findings):
   d2 two stack slots overlap while both hold a live value / a slot overlaps
      another slot of the frame at all when both are in use;
   e  a removed ("coalesced") move whose two sides got different colours;
-  f  colour missing / not a register of the class / not allocatable; the list
-     returned differs from snapshot minus removed moves.
+  f  colour missing / not a register of the class; the list returned differs
+     from snapshot minus removed moves.
 Conflicts between two *physical* registers are never reported (ABI artefacts).
 A conflict with a live virtual register that is not defined on every path to
 that point (non-strict instruction list, e.g. a mips block that lost its branch
@@ -84,18 +84,16 @@ class Alias:
         return list(self.desc(reg).values())
 
     def overlap(self, p, q):
-        """p and q name (partly) the same storage: one is a part of the other,
-        or ppci's own table says so (parents found through the table)."""
+        """p and q name (partly) the same storage: they have a part in common
+        (a register is a part of itself; parts are given by ``aliases``).  rax/al
+        overlap (al is a part of rax), al/ah do not, two views of one pair of
+        byte registers do."""
         if p is q:
             return True
         key = (id(p), id(q))
         if key not in self._overlap:
-            r = id(q) in self.desc(p) or id(p) in self.desc(q)
-            if not r:
-                # two parts of one parent (ax / al) overlap iff one contains the other, which
-                # the line above decides; siblings (al / ah) do not overlap.
-                r = False
-            self._overlap[key] = r
+            dp, dq = self.desc(p), self.desc(q)
+            self._overlap[key] = any(k in dq for k in dp)
         return self._overlap[key]
 
 
@@ -444,7 +442,9 @@ def check_frame(arch, frame, snap, rec=None):
                         ok = id(p) in allocatable[cls]
                         break
                 if ok is False:
-                    report("f", "virtual register %s got %s which is not allocatable for class %s" % (r.name, p.name, type(r).__name__))
+                    # legitimate when the register was coalesced with a precoloured register outside the
+                    # allocatable set (avr: mul result in r0); counted, not judged
+                    stats["colours_outside_allocatable_set"] = stats.get("colours_outside_allocatable_set", 0) + 1
 
     succ, pred, missing = build_cfg(instrs)
     if missing:
